@@ -138,6 +138,10 @@ pub fn run_check(id: &str, tier: Tier) -> i32 {
                 parts.push(run_engine(&runner::Reattributed { inner: CatalogueServerEngine, from: "C09", to: "C05", label: "refusal", only: "concurrency-limit|refused-stream" }, &ctx, scale(tier, 60_000, 300_000)));
             }
             if id == "C17" && parts.iter().all(|p| p.failure.is_none()) {
+                // peer resets arriving during and after a shutdown handshake (scripted peer)
+                parts.push(run_engine(&ShutdownEngine { server: true }, &ctx, scale(tier, 20_000, 200_000)));
+            }
+            if id == "C17" && parts.iter().all(|p| p.failure.is_none()) {
                 // peer-side failures (transport errors of every kind, GOAWAY, shutdown) surfacing on the handles
                 parts.push(run_engine(&PairEngine { focus: Focus::Faults }, &ctx, scale(tier, 10_000, 200_000)));
             }
